@@ -1,0 +1,38 @@
+//go:build verif
+
+package snow3g
+
+// Read-only exports for the verification harness (build tag "verif" only).
+
+func VerifSR() [256]byte {
+	var t [256]byte
+	copy(t[:], sr[:])
+	return t
+}
+
+func VerifSQ() [256]byte {
+	var t [256]byte
+	copy(t[:], sq[:])
+	return t
+}
+
+func VerifTableLens() (int, int) { return len(sr), len(sq) }
+
+func VerifS1(w uint32) uint32 { return s1(w) }
+
+func VerifS2(w uint32) uint32 { return s2(w) }
+
+func VerifMulAlpha(c byte) uint32 { return mulAlpha(c) }
+
+func VerifDivAlpha(c byte) uint32 { return divAlpha(c) }
+
+// VerifState returns the LFSR and FSM state after initialisation followed by n keystream-mode clocks
+// (n = 0: right after the 32 initialisation rounds).
+func VerifState(k, iv [4]uint32, n int) (lfsr [16]uint32, fsm [3]uint32) {
+	s := newSnow3g(k, iv)
+	for i := 0; i < n; i++ {
+		s.clockFsm(s.lfsr[15], s.lfsr[5])
+		s.lfsrKeystreamMode()
+	}
+	return s.lfsr, s.fsm
+}
